@@ -125,6 +125,19 @@ CHECKS = {
         "Trusted: numpy matmul/kron/reshape/conj (tensordot/moveaxis, which the code under test uses, are "
         "not used by the reference). Dimensions are drawn from {2,3}; lengths bounded as in the evidence.",
         "DESIGN.md 4/C08"),
+    "C09": (
+        "exhaustive enumeration of (interpretation, diagram) pairs: all dimension assignments and supply "
+        "modes x all source diagrams of the bounded universe, the real tensor.Functor / Diagram.eval "
+        "compared exactly with a layer-by-layer reference evaluator",
+        "(A) every rigid source diagram (asymmetric and daggered boxes, scalars, swaps, cups/caps) under "
+        "every interpretation of the family (27 assignments of dimensions 1..3 to the atoms, as int or Dim, "
+        "by dict or callable, plus multi-wire images): F(d).array must equal the product over layers of "
+        "I (x) M(box) (x) I, with the right dom/cod, and be invariant under every legal interchange and "
+        "under normal_form(); (B) every tensor.Diagram of boxes, daggers, swaps, spiders, cups, caps and "
+        "polynomial bubbles: eval() equals the reference and the identity-on-arrays functor; sums add.",
+        "Trusted: numpy kron/matmul (not tensordot/moveaxis). Cups/caps on atoms with non-palindromic "
+        "multi-wire images are refused by the library and counted as out_of_scope_refusals.",
+        "DESIGN.md 4/C09"),
 }
 
 PENDING_REASON = ("check not built yet in this session (planned: bounded exhaustive exploration as in "
